@@ -17,6 +17,7 @@ RULE = ("Wrapper chains of length 1..7 over synthetic manager objects (unwrap_co
         "expected hook-invocation log (elaborate on the original, unwrap, reset, elaborate again, ...) and the expected final "
         "obj / hide / description / inner_stack / children; the generator hook must receive the generator's outermost frame on "
         "both paths (inner stack present; exiting); a cycle must end in the 100-step RuntimeError; the three ways must agree. "
+        "A few cases per shard run in a process of their own, so that the fill_context() outside any extraction is the first stackscope call that process ever makes (nothing has run add_glue_as_needed yet). "
         "Non-trivial: >= 2 successful unwrap steps, or a PRUNE, or a generator-based link reached; distinct = distinct IR.")
 ASSUMPTIONS = [
     "the description set by the built-in contextlib glue is only recognised as 'set by the glue', its text is not asserted",
@@ -175,9 +176,25 @@ def check_case(ws, interps, case, out):
     return viols
 
 
+def fresh_process_case(interps, case, out):
+    """the case's fill_context() outside any extraction is the FIRST stackscope call the process ever makes"""
+    with WorkerSet(interps, hooks=False) as ws:
+        vs = check_case(ws, interps, case, out)
+    out.extra["first_call_in_a_fresh_process"] = out.extra.get("first_call_in_a_fresh_process", 0) + len(interps)
+    return vs
+
+
 def shard(arg):
     out = Outcome()
     interps = arg["interps"]
+    if arg.get("fresh"):
+        fail = hyp_search(cases(), lambda c: fresh_process_case(interps, c, out), seed=arg["seed"] + 7,
+                          max_examples=arg["fresh"], shrink=arg["shrink"])
+        if fail:
+            v = fail["violations"][0]
+            out.violation(v["desc"] + " [fill_context outside any extraction as the process's first stackscope call]",
+                          dict(fail["case"], fresh_process=True), v["interp"], flaky=fail["flaky"])
+            return out
     with WorkerSet(interps, hooks=False) as ws:
         fail = hyp_search(cases(), lambda c: check_case(ws, interps, c, out), seed=arg["seed"], max_examples=arg["n"],
                           shrink=arg["shrink"])
@@ -189,7 +206,8 @@ def shard(arg):
 
 def run(ctx):
     nshards = ctx.pick(8, 16)
-    args = [{"interps": ALL, "seed": ctx.shard_seed(i), "n": ctx.pick(800, 80000) // nshards, "shrink": not ctx.quick}
+    args = [{"interps": ALL, "seed": ctx.shard_seed(i), "n": ctx.pick(800, 80000) // nshards, "shrink": not ctx.quick,
+             "fresh": ctx.pick(6, 40)}
             for i in range(nshards)]
     out = run_shards("checks.c11", "shard", args)
     out.extra["interpreters"] = ALL
@@ -200,6 +218,7 @@ def replay(ctx, data):
     out = Outcome()
     interps = [data["interp"]] if data.get("interp") in ALL else ALL
     with WorkerSet(interps, hooks=False) as ws:
+        # (a worker serves one replay, so a case found by the fresh-process leg is replayed as it was found)
         for v in check_case(ws, interps, data["case"], out):
             out.violation(v["desc"], data["case"], v["interp"])
     return out
